@@ -3226,7 +3226,9 @@ FROM (
             select_parts.append(f"MAX({match_case} THEN 1 ELSE 0 END) AS {_has_col(ci)}")
 
         in_list = ", ".join(f"'{ci}'" for ci in unique_items)
-        group_by = f" GROUP BY {', '.join(group_cols)}" if group_cols else ""
+        # Without grouping columns the aggregate would return one all-NULL row for an
+        # operand holding none of the ruleset's code items: keep the pivot empty instead.
+        group_by = f" GROUP BY {', '.join(group_cols)}" if group_cols else " HAVING COUNT(*) > 0"
         pivot_sql = (
             f"SELECT {', '.join(select_parts)} "
             f"FROM {table_src} WHERE {qrc} IN ({in_list}){group_by}"
